@@ -44,7 +44,8 @@ type LeafEv struct {
 	Unann int      `json:"unann"`
 	Det   int      `json:"det"` // 1 same result on the re-run with other representatives/chunking, 0 differs, -1 not re-run
 	Res   GenRes   `json:"res"`
-	PathW []int    `json:"w"` // cell denominator / product of bounds, as limbs (filled for complete cells)
+	PathW []int    `json:"w"`    // cell denominator / product of bounds, as limbs (filled for complete cells)
+	Conc  int      `json:"conc"` // 1: a call made concurrently with others under real randomness (no draws recorded)
 }
 
 type CellEv struct {
